@@ -238,6 +238,8 @@ func checkC07Precedence(p *Prog, r *Report, ru *Rule) {
 					return "sni"
 				case "Host":
 					return "rawhost"
+				case "TLS":
+					return "tls" /* requests arrive over TLS: the state is there */
 				}
 			}
 			if al, ok := addr.(*ssa.Alloc); ok {
@@ -335,7 +337,7 @@ func checkC07Precedence(p *Prog, r *Report, ru *Rule) {
 		if cur.idnaErr && !cur.host {
 			continue /* An empty Host converts without error. */
 		}
-		mem := map[string]AV{"sni": str(cur.sni, "SNI"), "rawhost": str(cur.host, "RAWHOST")}
+		mem := map[string]AV{"sni": str(cur.sni, "SNI"), "rawhost": str(cur.host, "RAWHOST"), "tls": avNonNil}
 		var want string
 		switch {
 		case cur.pfErr:
@@ -529,13 +531,22 @@ func checkC07Reread(p *Prog, r *Report, ru *Rule, sh *ssa.Function) {
 		return false
 	}
 	nfile, ndef := 0, 0
+	memoFields := map[*types.Var]bool{}
 	for k, lf := range phiLeaves(exec.Common().Args[0]) {
 		c := fmt.Sprintf("%s:template-source#%d", fnName(sh), k+1)
 		if isNilConst(lf.V) {
 			continue /* An error path's placeholder; the body rule (no script on error) covers it. */
 		}
+		/* A parse remembered with the exact text it came from, used only
+		where that text equals what this request read: the parse of what
+		this request read. */
+		memoKey := ssa.Value(nil)
+		if km := contentKeyedMemo(p, sh, lf.V, lf.From); nil != km {
+			memoKey = km.Key
+			memoFields[km.ValField], memoFields[km.KeyField] = true, true
+		}
 		/* The configured default: only when no file is configured. */
-		if fv, _ := loadedField(lf.V); nil != fv && fv != tmplf {
+		if fv, _ := loadedField(lf.V); nil == memoKey && nil != fv && fv != tmplf {
 			ndef++
 			onEmpty := false
 			if nil != lf.From {
@@ -557,6 +568,9 @@ func checkC07Reread(p *Prog, r *Report, ru *Rule, sh *ssa.Function) {
 		}
 		/* Otherwise: the parse of what was read from s.tmplf in this call. */
 		rs := valueRoots(lf.V, through)
+		if nil != memoKey {
+			rs = valueRoots(memoKey, through)
+		}
 		readOK := false
 		var other []string
 		var visit func(rs []Root, depth int)
@@ -618,6 +632,9 @@ func checkC07Reread(p *Prog, r *Report, ru *Rule, sh *ssa.Function) {
 				}
 				base = nb
 				break
+			}
+			if sfv, _ := fieldAddrOf(st.Addr); nil != sfv && memoFields[sfv] {
+				return /* a content-keyed memo, judged where it is read */
 			}
 			if nil != fv && typeIs(base.Type(), ModPath+"/internal/hsrv", "Server") {
 				nst++
